@@ -15,6 +15,7 @@ import (
 
 	runewidth "github.com/mattn/go-runewidth"
 	"golang.org/x/text/encoding"
+	"golang.org/x/text/transform"
 )
 
 // ColorKind says how a cell colour was selected.
@@ -67,6 +68,7 @@ type Cell struct {
 	Pen   Pen
 	Stamp int  // index of the output block that last printed into this cell
 	Alt   bool // glyph was selected through an alternate character set
+	AltB  byte // the byte that selected it
 	Junk  bool // content placed by the harness as "arbitrary previous contents"
 }
 
@@ -139,6 +141,7 @@ type Term struct {
 	PCAlt   bool // description uses the PC alternate font (SGR 11/12) for its ACS
 	Lenient bool // non-ECMA-48 family: interpret nothing, check syntax only
 
+	altByte      byte
 	lastX, lastY int
 	lastOK       bool // position of the glyph printed last, until the cursor is moved explicitly
 
@@ -342,6 +345,7 @@ func (t *Term) ground(b byte) {
 	}
 	if t.PCFont && t.PCAlt && b != 0x1b {
 		// PC alternate font: every byte except ESC is a CP437 glyph
+		t.altByte = b
 		t.print(rune(0xF000+int(b)), 1, true)
 		if t.recordBytes {
 			t.PrintBytes = append(t.PrintBytes, b)
@@ -383,11 +387,12 @@ func (t *Term) ground(b byte) {
 			t.PrintBytes = append(t.PrintBytes, b)
 		}
 		set := t.G[t.Shift]
+		t.altByte = b
 		if set == '0' && b >= 0x5f && b <= 0x7e {
 			t.print(decGraphics[b-0x5f], 1, true)
 			return
 		}
-		t.print(rune(b), 1, false)
+		t.print(rune(b), 1, set == '0')
 	default:
 		t.u8 = append(t.u8, b)
 		t.tryChar()
@@ -421,37 +426,42 @@ func (t *Term) tryChar() {
 		}
 		return
 	}
-	// legacy character set: decode the pending bytes
-	t.decoder.Reset()
-	out, err := t.decoder.Bytes(t.u8)
-	if err == nil && len(out) > 0 {
-		r, _ := utf8.DecodeRune(out)
-		if r == utf8.RuneError {
-			// incomplete multi-byte character?
-			if len(t.u8) < 4 && t.u8[0] >= 0x81 {
-				// try with one more byte unless this charset is single-byte
-				if t.multiByte() {
-					return
-				}
-			}
-			t.errf("bytes % x are not a character of the terminal's character set", t.u8)
-			t.u8 = t.u8[:0]
-			return
+	// legacy character set: find the shortest prefix of the pending bytes
+	// that is a complete character (atEOF=false: a truncated multi-byte
+	// character reports a short source)
+	var dst [16]byte
+	for l := 1; l <= len(t.u8); l++ {
+		t.decoder.Reset()
+		nDst, _, err := t.decoder.Transform(dst[:], t.u8[:l], false)
+		if err == transform.ErrShortSrc {
+			continue
 		}
-		if utf8.RuneCount(out) > 1 {
-			t.errf("bytes % x decode to more than one character", t.u8)
+		if err != nil || nDst == 0 {
+			break
+		}
+		r, _ := utf8.DecodeRune(dst[:nDst])
+		if r == utf8.RuneError {
+			break
 		}
 		if t.recordBytes {
-			t.PrintBytes = append(t.PrintBytes, t.u8...)
+			t.PrintBytes = append(t.PrintBytes, t.u8[:l]...)
 		}
+		rest := append([]byte(nil), t.u8[l:]...)
 		t.u8 = t.u8[:0]
 		t.char(r)
+		for _, b := range rest {
+			t.put(b)
+		}
 		return
 	}
-	if len(t.u8) >= 4 {
-		t.errf("bytes % x are not a character of the terminal's character set", t.u8)
-		t.u8 = t.u8[:0]
+	// no prefix decodes: either more bytes are needed or the data is bad
+	t.decoder.Reset()
+	_, _, err := t.decoder.Transform(dst[:], t.u8, false)
+	if err == transform.ErrShortSrc && len(t.u8) < 4 {
+		return
 	}
+	t.errf("bytes % x are not a character of the terminal's character set", t.u8)
+	t.u8 = t.u8[:0]
 }
 
 func (t *Term) multiByte() bool {
@@ -560,6 +570,9 @@ func (t *Term) print(r rune, w int, alt bool) {
 	}
 	t.blankHalf(t.CX, t.CY)
 	*t.At(t.CX, t.CY) = Cell{R: r, Width: w, Pen: t.Pen, Stamp: t.Block, Alt: alt}
+	if alt {
+		t.At(t.CX, t.CY).AltB = t.altByte
+	}
 	t.lastX, t.lastY, t.lastOK = t.CX, t.CY, true
 	if w == 2 {
 		t.blankHalf(t.CX+1, t.CY)
